@@ -10,7 +10,9 @@ CAPTURED = ["", "ok\n", "line1\nline2\n", "tab\there", "cr\r\nlf", "back\\slash"
 GLOBS = ["*", "*.c", "src/*", "a?c", "[ab]*", "[!a]*", "dir/sub/*", "foo", "foo.tar.gz", "a b", "é*"]
 PATHS = ["foo", "bar", "src/a.c", "src/b.c", "dir/sub/x", "a b", "é", "foo.tar.gz", ".hidden", "x/y/z",
          # legitimate but unusual spellings: runs of separators, dot components, URI-like names
-         "a///b", "file:///srv/x", "./foo", "a/./b", "a//b", "x/../y", "dir/", "/abs/p"]
+         "a///b", "file:///srv/x", "./foo", "a/./b", "a//b", "x/../y", "dir/", "/abs/p",
+         # a backslash is an ordinary character of a path
+         "dist\\foo.tar.gz", "C:\\out\\a.bin", "a\\/b"]
 
 
 def hs(rng, hostile=0.5):
